@@ -1,6 +1,6 @@
 // Harnesses woven into src/block_handler/block_value.rs (C13).
 
-//@ props=C13 tier=quick timeout=600 model=0
+//@ props=C13 tier=quick timeout=600 model=0 mem=4
 //@ functions=Vec::<u8>::from(BlockValue), BlockValue::try_from(Vec<u8>), BlockValue::size, option_from_uint, option_to_uint
 //@ bounds=num: every u16; more: both; size exponent 0..7 (the full domain of the type's documented use)
 //@ what=encoding = shortest big-endian uint of NUM<<4|M<<3|SZX computed in 32 bits; decode returns the triple; size() = 2^(SZX+4)
@@ -35,7 +35,7 @@ fn c13_encode_decode() {
     kani::cover!(n == 2, "two-byte value");
 }
 
-//@ props=C13 tier=quick timeout=600 model=0
+//@ props=C13 tier=quick timeout=600 model=0 mem=4
 //@ functions=BlockValue::try_from(Vec<u8>), option_to_uint
 //@ bounds=every byte string of length 0..4 (symbolic length and contents)
 //@ what=decoding a 0-3 byte value yields NUM = v>>4, M = bit 3, SZX = v&7 of its big-endian value, leading zeros included; 4 bytes and more are rejected
@@ -74,7 +74,7 @@ fn c13_decode_bytes() {
     kani::cover!(l == 0, "empty value");
 }
 
-//@ props=C13 tier=quick timeout=900 model=0
+//@ props=C13 tier=quick timeout=900 model=0 mem=4
 //@ functions=BlockValue::new, BlockValue::largest_power_of_2_not_in_excess
 //@ bounds=num, size: every usize; more: both
 //@ what=Err iff size = 0, size >= 4096 or num > 65535; otherwise exponent = max(4, floor(log2 size)) - 4 and the fields are kept
